@@ -101,6 +101,7 @@ def check(env, rep, tier):
         predicate_rule(prog, rep, "C14.1", "deregister", (0,), {"endpoint", "token"}, 2)
 
         rest_of_check(prog, rep, i_unack, i_mid)
+        keyed_access(prog, rep)
 
 
 def make_ack_extra(prog, i_mid):
@@ -214,3 +215,67 @@ def rest_of_check(prog, rep, i_unack, i_mid):
                    "a notification round can create a registry entry through %s" % sorted(set(creating)), site)
             rep.ob("C14.3", "modifies-existing", "and_modify" in used or "get_mut" in used,
                    "resource_changed no longer reaches the registry through a modify-only API (uses %s)" % sorted(set(used)), site)
+
+
+WHOLE_MAP_MUT = ("iter_mut", "values_mut", "retain", "clear", "drain", "extract_if", "pop_first", "pop_last", "first_entry",
+                 "last_entry", "append", "split_off", "into_iter", "into_values", "into_keys")
+CREATING = ("or_insert", "or_insert_with", "or_insert_with_key", "or_default", "insert", "insert_entry", "try_insert")
+
+
+def reachable(prog, body):
+    """bodies reachable from `body` through resolved crate-local calls and the closures defined inside them"""
+    seen, work = {}, [body]
+    while work:
+        b = work.pop()
+        if b["id"] in seen:
+            continue
+        seen[b["id"]] = b
+        for o in prog.bodies.values():
+            if not o.get("promoted") and o["path"].startswith(b["path"] + "::{closure") and o["id"] not in seen:
+                work.append(o)
+        for bb in b["blocks"]:
+            t = bb["term"]
+            if t["k"] == "call" and not bb["cleanup"]:
+                r = t.get("resolved") or {}
+                if r.get("local") and r.get("id") in prog.bodies and r["id"] not in seen:
+                    work.append(prog.bodies[r["id"]])
+    return list(seen.values())
+
+
+def keyed_access(prog, rep):
+    """C14.4: the per-path operations (register, deregister, resource_changed) reach the resource map only through
+    keyed accessors - nothing in their call graph walks or empties the whole map mutably, so no other resource's
+    observers can change.  C14.5: a notification round never inserts into the map."""
+    n_calls = 0
+    for name in ("register", "deregister", "resource_changed"):
+        b = find_body(prog, "observe::Subject::<Endpoint>::" + name)
+        if b is None:
+            rep.missing("C14.4", "Subject::" + name)
+            continue
+        whole, creating = [], []
+        for rb in reachable(prog, b):
+            for bb in rb["blocks"]:
+                t = bb["term"]
+                if t["k"] != "call" or bb["cleanup"]:
+                    continue
+                c = t.get("resolved") or t.get("callee") or {}
+                p = c.get("path", "")
+                if "collections::btree::map" not in p and "collections::hash::map" not in p and "hashbrown" not in p:
+                    continue
+                gs = [prog.types[g]["s"] for g in c.get("gargs", [])]
+                if not any("observe::Resource" in g for g in gs):
+                    continue
+                n_calls += 1
+                nm = c.get("name") or p.rsplit("::", 1)[-1]
+                if nm in WHOLE_MAP_MUT or "IterMut" in p or "ValuesMut" in p:
+                    whole.append("%s in %s" % (p, rb["path"]))
+                if nm in CREATING:
+                    creating.append("%s in %s" % (p, rb["path"]))
+        site = {"file": b["span"]["f"], "line": b["span"]["l"], "fn": b["path"]}
+        rep.ob("C14.4", "%s|keyed-only" % name, not whole,
+               "Subject::%s reaches the resource map through a whole-map mutable operation (%s): observers of resources other than "
+               "the one addressed can change" % (name, "; ".join(whole[:2])), site)
+        if name == "resource_changed":
+            rep.ob("C14.5", "resource_changed|creates-nothing", not creating,
+                   "a notification round can insert into the resource map (%s): an unobserved path gets an entry" % "; ".join(creating[:2]), site)
+    rep.floor("C14.4", "calls on the resource map reachable from the per-path operations", n_calls, 5)
